@@ -34,6 +34,25 @@ CLAIMED = {
         "Trusted: the independent decoder/opcode table, z3, CPython. The opcodes/asm/source-map text outputs are not covered.",
         "DESIGN.md 3/C16",
     ),
+    "C07": (
+        "proof",
+        "contract-based deductive verification, template route: the real compiler's run-time bytecode for each contract shape and configuration is denoted for all calldata/values and the dispatch contract is discharged by z3; jump-table kernels by bounded run-time contract evaluation",
+        "Per contract shape (1..61 external functions, mixed payability, default arguments, dynamic arguments, selectors with trailing zero bytes or colliding in a bucket, with and without payable / non-payable __default__), "
+        "pipeline (legacy linear/sparse/dense, Venom linear/sparse/dense) and EVM target, for ALL calldata (any length and prefix) and call values: success implies the selected entry point (or default-argument variant) ran with its entry "
+        "conditions (calldatasize >= 4 + head size, no value unless payable) and its result is computed from the decoded arguments / declared defaults; no match reaches __default__ iff it exists and accepts the value; "
+        "every failing path has no accepting entry. Per-instance proofs, not a proof for every contract.",
+        "Trusted: bytecode denotation (sem/), z3. codegen/jumptable_utils.py is only exercised by bounded run-time contract evaluation (reported under bounded). Counterexamples are replayed natively in pyrevm.",
+        "DESIGN.md 3/C07",
+    ),
+    "C15": (
+        "proof",
+        "contract-based deductive verification: PyVC (VCs from the live source of ir/optimizer._optimize_binop, _comparison_helper and the vyper.utils evm_* kernels, all literal values, discharged by z3/cvc5) + relational template contracts optimize=none vs gas/codesize on the real bytecode",
+        "Unbounded over literal values in [-2**255, 2**256) and run-time operand words: every rewrite of _optimize_binop (21 operators x operand shapes x parent contexts) denotes the same word (same truthiness in a truthy context), "
+        "keeps every complex argument exactly once, and the in-code assertion is unreachable; evm_div/evm_mod/signed_to_unsigned/unsigned_to_signed/wrap256/evm_not/ceil32 equal the Yellow-Paper functions. "
+        "Whole legacy optimiser + assembly peephole: per template, optimised and unoptimised bytecode are observationally equal for all calldata/state (per-instance).",
+        "Trusted: spec_evm.py, z3/cvc5, the PyVC executor, bytecode denotation. The peephole rules are covered only through the template instances (no window enumeration yet). A few literal-literal smod folding leaves are expected-undecided (ledger).",
+        "DESIGN.md 3/C15",
+    ),
     "C03": (
         "proof",
         "contract-based deductive verification: GenVC (real generators called on symbolic-leaf operands, emitted IR term denoted, obligations for all operand words discharged by z3/cvc5) + exhaustive evaluation of the pow-bound kernel",
